@@ -440,7 +440,7 @@ def main(tier):
     ev.extra["exhaustive_chain_arity"] = [p[0] for p in plan]
     ev.exhaustive = False
     # random trees
-    total = 6000 if tier == "quick" else 60000
+    total = 20000 if tier == "quick" else 120000
     results = harness.run_workers("pbt.c07_notation", tier, total)
     for r in results:
         ev.merge(r["evidence"])
